@@ -22,6 +22,9 @@ def main():
         # the claim text is the rule module's own docstring (what is decided / what is not), so the two cannot drift apart
         doc = _ast.get_docstring(_ast.parse(open(os.path.join(ROOT, "flexlint", "rules", pid.lower() + ".py")).read())) or ""
         doc = _re.sub(r"\s+", " ", doc.split("\n", 1)[1] if "\n" in doc else doc).strip()
+        from flexlint.rules import lintutil as _lint
+        if pid in _lint.ZERO_TRUTHINESS:
+            doc = doc + " " + _lint.CLAIM
         n_open = sum(1 for l in ledger if l.startswith("open:") and f"property={pid} " in l)
         c["text"] = ("Structural necessary conditions of the property, decided from source for every input / schedule / history at once. "
                      + doc + (f" {n_open} known finding(s) of this property are listed in KNOWN_FINDINGS.txt (genuine defects pinned by the "
